@@ -144,7 +144,7 @@ def run(ctx):
     rng = ctx.rng
     # several executor instances in one process (two nodes), schedules interleaved: a response parked at
     # one executor must never show up at, or be consumed by, the other
-    n_two = 3000 if ctx.thorough else 250
+    n_two = 1500 if ctx.thorough else 250
     for i in range(n_two):
         if len(res.failures) >= MAX_FAILURES:
             break
@@ -154,7 +154,7 @@ def run(ctx):
         toks = H.interleave(rng, H.random_schedule(scs[0], rng, early=rng.choice([0, 1, 2])),
                             H.random_schedule(scs[1], rng, early=rng.choice([0, 1, 2])))
         _run_two(ctx, res, H, scs, toks)
-    n_random = 40000 if ctx.thorough else 2000
+    n_random = 25000 if ctx.thorough else 2000
     for i in range(n_random):
         if len(res.failures) >= MAX_FAILURES:
             break
@@ -163,7 +163,7 @@ def run(ctx):
         toks = H.random_schedule(sc, rng)
         _run_case(ctx, res, H, sc, toks, "rnd")
     # create and receive roles mixed on ONE socket, responses arriving before their instruction ran
-    n_mixed = 8000 if ctx.thorough else 500
+    n_mixed = 5000 if ctx.thorough else 500
     for i in range(n_mixed):
         if len(res.failures) >= MAX_FAILURES:
             break
@@ -173,7 +173,7 @@ def run(ctx):
         res.count("mixed-roles-one-socket")
     # faults at the environment boundary: the network stack refuses a request (put raises) or does not
     # know the socket (get_purpose_id raises) inside one subroutine; the others go on using the socket
-    n_fault = 6000 if ctx.thorough else 500
+    n_fault = 3000 if ctx.thorough else 500
     for i in range(n_fault):
         if len(res.failures) >= MAX_FAILURES:
             break
